@@ -530,8 +530,14 @@ def r14_i(run, fx, floors):
                 # writes to the cursor
                 if "offset" in place_fields(s["p"]) and any(isinstance(e, dict) and e.get("n") == "offset" and (e.get("a") or "").endswith("read::ReadCtxt") for e in s["p"]["p"]):
                     nm = b.name or ""
-                    if b.file == READ_RS and (nm.startswith("read_unchecked_") or nm == "read_scope"):
-                        run.ok("R14-I")
+                    if b.file == READ_RS and nm.startswith("read_unchecked_"):
+                        run.ok("R14-I")     # the value written is checked by R14-P (+= N, once)
+                    elif b.file == READ_RS and nm == "read_scope":
+                        why = read_scope_write_ok(b, bi, s)
+                        if why is True:
+                            run.ok("R14-I", "read_scope: offset += length only after offset_length(self.offset, length) succeeded (no effect on failure)")
+                        else:
+                            run.fail("R14-I", "offset-write:read_scope", "cursor write in read_scope: %s" % why, b.loc(s))
                     else:
                         run.fail("R14-I", "offset-write:" + b.root, "write to ReadCtxt.offset outside the kernels/read_scope", b.loc(s))
                 if rv["k"] == "ref" and rv["mut"] and any(isinstance(e, dict) and e.get("n") == "offset" and (e.get("a") or "").endswith("read::ReadCtxt") for e in rv["p"]["p"]):
@@ -573,6 +579,88 @@ def r14_i(run, fx, floors):
                 run.ok("R14-I", "%s in %s: stride %s (%s); scope %s" % (adt.split("::")[-1], b.path, sym.show(stride), why, why2))
     if floors:
         run.floor("R14-I", "ReadArray/ReadArrayIter literals", lits, 5)
+
+
+def read_scope_write_ok(b, bi, s):
+    """the cursor write of read_scope is `self.offset = self.offset + length` (overflow-checked add of the
+    parameter) and lies in a block dominated by the success edge of offset_length(self.offset, length)"""
+    prov = sym.Prov(b)
+    t = sym.strip(prov.rvalue(s["rv"]))
+    # accepted value forms: offset + length (plain/overflow-checked) or a std checked/saturating/wrapping add of the two
+    ops = None
+    if t[0] == "bin" and t[1] in ("Add", "AddWithOverflow"):
+        ops = [sym.strip(t[2]), sym.strip(t[3])]
+    else:
+        for x in sym.walk(t):
+            if x[0] == "call" and (x[1] or "").endswith(("::checked_add", "::saturating_add", "::wrapping_add")) and len(x[2]) == 2:
+                ops = [sym.strip(x[2][0]), sym.strip(x[2][1])]
+                break
+    if ops is None:
+        return "the value written is not self.offset + length (%s)" % sym.show(t)[:80]
+
+    def unref(o):
+        while o[0] in ("ref", "deref"):
+            o = sym.strip(o[1])
+        return o
+    ops = [unref(o) for o in ops]
+    has_off = any(o[0] == "field" and o[2] == "offset" for o in ops)
+    has_len = any(o[0] == "arg" and o[1] == 2 for o in ops)
+    if not (has_off and has_len):
+        return "the value written is not self.offset + length (%s)" % sym.show(t)[:80]
+    for ci, ct in b.calls():
+        if callee_is(ct, "ReadScope::<'a>::offset_length") and not ct["dest"]["p"] and len(ct["args"]) == 3:
+            a1, a2 = sym.strip(prov.op(ct["args"][1])), sym.strip(prov.op(ct["args"][2]))
+            if a1[0] == "field" and a1[2] == "offset" and a2[0] == "arg" and a2[1] == 2:
+                for sb in guards.success_blocks(b, ct["dest"]["l"]):
+                    if b.dominates(sb, bi):
+                        return True
+    return "not dominated by the success of offset_length(self.offset, length): the cursor moves even when the read fails"
+
+
+def r14_a(run, fx, floors):
+    run.rule("R14-A", "element addressing: in every ReadArray/ReadArrayIter method the window of element i is "
+                      "scope.offset_length(i * S, S) / scope.offset(i * S) with S the array's stride (self.stride, or T::size(self.args) for "
+                      "argument-sized arrays) — never T::SIZE or another quantity — so strided arrays expose exactly their elements, in order")
+    n = 0
+    for b in fx.bodies:
+        if b.file != READ_RS or "ReadArray" not in b.root:
+            continue
+        prov = sym.Prov(b)
+        for bi, t in b.calls():
+            if not callee_is(t, "ReadScope::<'a>::offset_length", "ReadScope::<'a>::offset"):
+                continue
+            recv = sym.strip(prov.op(t["args"][0]))
+            while recv[0] in ("ref", "deref"):
+                recv = sym.strip(recv[1])
+            if not (recv[0] == "field" and recv[2] == "scope"):
+                continue
+            n += 1
+            off = sym.strip(prov.op(t["args"][1]))
+            key = "addressing:%s" % b.root
+
+            def is_stride(x):
+                x = sym.strip(x)
+                if x[0] == "field" and x[2] == "stride":
+                    return "self.stride"
+                if x[0] == "call" and (x[4] or "").endswith("ReadFixedSizeDep::size") and x[2]:
+                    a = sym.strip(x[2][0])
+                    if a[0] == "field" and a[2] == "args":
+                        return "T::size(self.args)"
+                return None
+            s_used = None
+            if off[0] == "bin" and off[1] in ("Mul", "MulWithOverflow"):
+                s_used = is_stride(off[2]) or is_stride(off[3])
+            if s_used is None:
+                run.fail("R14-A", key, "element offset %s is not index * stride" % sym.show(off)[:80], b.loc(t))
+                continue
+            if callee_is(t, "ReadScope::<'a>::offset_length"):
+                ln = is_stride(prov.op(t["args"][2]))
+                if ln != s_used:
+                    run.fail("R14-A", key, "element window length %s is not the stride used for the offset (%s)" % (sym.show(sym.strip(prov.op(t["args"][2])))[:60], s_used), b.loc(t))
+                    continue
+            run.ok("R14-A", "%s: element window at index * %s" % (b.path, s_used))
+    if floors:
+        run.floor("R14-A", "element addressing sites", n, 4)
 
 
 def fieldwise_copy(prov, rv):
@@ -839,5 +927,6 @@ def check(run, fx, tier, floors=True):
     r14_i(run, fx, floors)
     r14_s(run, fx, kernels, floors)
     r14_g(run, fx)
+    r14_a(run, fx, floors)
     r14_o(run, fx)
     run.analysed["kernels"] = kernels
